@@ -463,7 +463,7 @@ pub fn main(ctx: &Ctx) -> i32 {
         };
         return if body["detail"]["universe"].as_str() == Some("U-BB4") { replay::<crate::uni::Bb4>(ctx, &body) } else { replay::<crate::uni::Kb4>(ctx, &body) };
     }
-    let runs: u64 = if prop == "C11" { ctx.tier.pick(400, 6000) } else { ctx.tier.pick(32, 400) };
+    let runs: u64 = if prop == "C11" { ctx.tier.pick(3000, 60000) } else { ctx.tier.pick(64, 800) };
     let res = crate::core::pool::run_jobs(runs, |idx| {
         let mut out = RunOut::default();
         if idx % 2 == 0 {
